@@ -109,7 +109,11 @@ func runC18(c *Ctx) {
 						// constDiff substitutes idx itself
 						bad = fmt.Sprintf("the tokenised text is line[:i%+d] for i the index of '#': the character before the comment sign is dropped unless it is a blank ('0.0.0.0 example.org#note' yields 'example.or')", d)
 					}
-					if c0, isC := idx.Args[1].IntVal(); !isC || c0 != '#' {
+					c0, isC := idx.Args[1].IntVal()
+					if sv, isS := idx.Args[1].StrVal(); isS && len(sv) == 1 {
+						c0, isC = int64(sv[0]), true
+					}
+					if !isC || c0 != '#' {
 						bad = "the comment sign searched for is not '#'"
 					}
 					// guard: cut iff found at a positive index
@@ -205,15 +209,15 @@ func runC18(c *Ctx) {
 				break
 			}
 		}
-		loops := loopsOf(tok)
 		type scan struct {
-			l  *Loop
-			ct *Counted
+			l   *Loop
+			ct  *Counted
+			act *Summary
 		}
 		var scans []scan
-		for _, l := range loops {
-			if ct := countedLoop(u, s, l); ct != nil {
-				scans = append(scans, scan{l, ct})
+		for _, li := range loopInsts(g, s) {
+			if ct := countedLoop(u, li.Act, li.L); ct != nil {
+				scans = append(scans, scan{li.L, ct, li.Act})
 			}
 		}
 		blank := func(b int64) bool { return b == ' ' || b == '\t' }
@@ -275,7 +279,7 @@ func runC18(c *Ctx) {
 			// stay condition: OR of latch reach conditions
 			stay := False
 			for _, lt := range sc.l.Latches {
-				stay = u.bdd.Or(stay, s.RC[lt])
+				stay = u.bdd.Or(stay, sc.act.RC[lt])
 			}
 			ch := u.mk("index", "", types.Typ[types.Uint8], str, sc.ct.Idx)
 			for b := int64(0); b < 256 && bad == ""; b++ {
